@@ -28,6 +28,7 @@ F = fractions.Fraction
 CHAN_POOL = ['A', 'B', 'C', 'D', 'E', 'G']
 MEAS_POOL = ['m', 'n', 'o', 'w']
 POW2 = [F(1, 4), F(1, 2), F(1), F(2)]
+DECIMALS = [F(1, 10), F(3, 10), F(7, 10), F(12, 10), F(235, 100), F(5, 100), F(31, 10), F(2), F(17, 100), F(1)]
 
 
 def _q():
@@ -314,20 +315,21 @@ class Env:
 
 
 class Gen:
-    def __init__(self, rng, max_depth=4, stream='dyadic', avoid_pf11=0.9, measure_p=0.45, drop_p=0.3):
+    def __init__(self, rng, max_depth=4, stream='dyadic', avoid_pf11=0.9, measure_p=0.45, drop_p=0.3, zero_p=0.0):
         self.rng = rng
         self.max_depth = max_depth
         self.stream = stream
         self.avoid_pf11 = avoid_pf11
         self.measure_p = measure_p
         self.drop_p = drop_p
+        self.zero_p = zero_p      # extra probability of a zero repetition count / an empty iteration range
         self.counter = 0
 
     # -- parameters --------------------------------------------------------------------------------
     def params(self) -> Tuple[Env, Dict[str, Any]]:
         r = self.rng
         ints = {'n%d' % i: r.choice([0, 1, 1, 2, 2, 3]) for i in range(3)}
-        times = {'d%d' % i: r.choice(POW2) for i in range(3)}
+        times = {'d%d' % i: r.choice(DECIMALS if self.stream == 'decimal' else POW2) for i in range(3)}
         volts = {'v%d' % i: F(r.randrange(-24, 25), 8) for i in range(3)}
         values: Dict[str, Any] = {}
         for k, v in ints.items():
@@ -375,6 +377,13 @@ class Gen:
         r = self.rng
         k = r.random()
         names = list(env.times)
+        if self.stream == 'decimal':
+            # durations are *given* as decimals (literal or parameter), never computed in float arithmetic
+            if k < 0.5 or not names:
+                v = r.choice(DECIMALS)
+                return fstr(v), v
+            a = r.choice(names)
+            return a, env.times[a]
         if k < 0.45 or not names:
             v = r.choice(POW2)
             return fstr(v), v
@@ -390,7 +399,7 @@ class Gen:
         r = self.rng
         s, v = self.p2time(env)
         k = r.random()
-        if k < 0.6:
+        if k < 0.6 or self.stream == 'decimal':
             return s, v
         if k < 0.8:
             s2, v2 = self.p2time(env)
@@ -422,6 +431,9 @@ class Gen:
 
     def count(self, env: Env) -> Tuple[str, Optional[int]]:
         r = self.rng
+        if r.random() < self.zero_p:
+            zeros = [n for n, v in env.ints.items() if v == 0]
+            return (r.choice(zeros), 0) if zeros and r.random() < 0.5 else ('0', 0)
         k = r.random()
         names = list(env.ints)
         if k < 0.3 or not names:
@@ -435,13 +447,18 @@ class Gen:
         if k < 0.85:
             b = r.choice(names)
             return '%s*%s' % (a, b), env.ints[a] * env.ints[b]
-        if k < 0.95 and env.idx:
-            i = r.choice(list(env.idx))
-            return i, None
+        nonneg = [i for i, vals in env.idx.items() if min(vals, default=0) >= 0]
+        if k < 0.95 and nonneg:
+            # (a negative count is silently instantiated as zero repetitions while the template's duration
+            #  expression count*body becomes negative: counts are kept non-negative, see notes/C04.md)
+            return r.choice(nonneg), None
         return '2*%s' % a, 2 * env.ints[a]
 
     def loop_range(self, env: Env) -> Tuple[Tuple[str, str, str], List[int]]:
         r = self.rng
+        if r.random() < self.zero_p:
+            a, b, s = r.choice([(0, 0, 1), (3, 1, 1), (0, 2, -1), (2, 2, -1)])
+            return (str(a), str(b), str(s)), []
         names = list(env.ints)
         k = r.random()
         if k < 0.45 or not names:
@@ -516,6 +533,12 @@ class Gen:
                 times = times[1:]     # starts later: (0, v0) is inserted by the template
             if len(times) == 1:
                 times = [('0', F(0))] + times
+        elif self.stream == 'decimal':
+            n = r.choice([2, 2, 3, 4])
+            vals = sorted(r.sample([F(k, 20) for k in range(1, 80)], n))
+            if r.random() < 0.7:
+                vals[0] = F(0)
+            times = [(fstr(v), v) for v in vals]
         else:
             n = r.choice([2, 2, 3, 3, 4, 5])
             t_s, t_v = ('0', F(0)) if r.random() < 0.75 else self.p2time(env)
@@ -670,7 +693,7 @@ class Gen:
                 scalar = fstr(r.choice([F(1, 2), F(2), F(-1), F(3, 2), F(0), F(1, 4)])) if r.random() < 0.6 else r.choice(list(env.volts) or ['2'])
             else:
                 scalar = self.volt(env)[0]
-            if r.random() < 0.4:
+            if r.random() < 0.5:
                 sub = r.sample(chans, r.randrange(1, len(chans) + 1))
                 scalar = [[c, scalar if i == 0 else self.volt(env)[0] if op in '+-' else scalar] for i, c in enumerate(sub)]
             spec = {'k': 'arith', 'body': self.template(d, chans, env, force_idx, True), 'op': op, 'scalar': scalar,
@@ -695,8 +718,13 @@ class Gen:
         # channels: inner names -> outer names (a bijection onto `chans`), extra inner channels are dropped
         pool = [c for c in CHAN_POOL]
         r.shuffle(pool)
-        if r.random() < 0.5:
+        k = r.random()
+        if k < 0.4:
             inner = list(chans)
+        elif k < 0.65 and len(chans) >= 2:
+            inner = list(chans)          # a permutation of the same names: mappings must not be applied twice
+            while inner == list(chans):
+                r.shuffle(inner)
         else:
             inner = pool[:len(chans)]
         cm = [[i, o] for i, o in zip(inner, chans)]
